@@ -1,8 +1,8 @@
 (* C15 — evaluation metrics.  Property theorems only: statements are about the executable model
    SC.C15.Model instantiated at the real numbers (ROps); the correspondence check ties the same
    model, instantiated at binary64, to src/metrics/*.rs. *)
-From Coq Require Import List ZArith Reals Bool Arith Lra.
-From SC Require Import Base.Num C15.Model C15.ProofsBasic.
+From Coq Require Import List ZArith Reals Bool Arith Lia Lra Permutation Sorted.
+From SC Require Import Base.Num C15.Model C15.ProofsBasic C15.ProofsAUC C15.ProofsHCV C15.ProofsHCV2.
 Import ListNotations.
 Local Open Scope R_scope.
 
@@ -60,3 +60,124 @@ Proof. intros T O. exact (length_mismatch_any O). Qed.
 Theorem C15_non_binary_rejected : forall yt yp, length yt = length yp -> ~ (binary yt /\ binary yp) ->
   precision ROps yt yp = None /\ recall ROps yt yp = None /\ forall beta, f_beta ROps beta yt yp = None.
 Proof. exact non_binary_rejected. Qed.
+
+(* ------------------------------------------------------------------------------------------------
+   ROC-AUC.  `auc_with yt scores idx` is the code after the sort: idx is the index vector returned by
+   quick_argsort_mut, the sorted scores are the scores read through idx.  For EVERY permutation idx of
+   0..n-1 that sorts the scores (ties in any order) the rank-sum with mid-ranks equals the pairwise
+   definition: sum over (positive i, negative j) of [s_i > s_j] + [s_i = s_j]/2, divided by pos*neg. *)
+Theorem C15_auc_is_pairwise_probability : forall yt scores idx,
+  length scores = length yt -> yt <> [] -> binary yt ->
+  Permutation idx (seq 0 (length yt)) ->
+  Sorted Rle (map (at_ scores) idx) ->
+  auc_with ROps yt scores idx = Some (auc_pairwise yt scores).
+Proof. exact auc_rank_sum. Qed.
+
+(* with the model's own (insertion) sort: unconditional in the scores *)
+Theorem C15_auc_definition : forall yt scores,
+  length scores = length yt -> yt <> [] -> binary yt ->
+  auc ROps yt scores = Some (auc_pairwise yt scores).
+Proof. exact auc_def. Qed.
+
+Theorem C15_auc_rejects_non_binary : forall yt scores idx,
+  ~ binary yt -> auc_with ROps yt scores idx = None.
+Proof. exact auc_non_binary. Qed.
+
+(* ------------------------------------------------------------------------------------------------
+   Cluster scores.  Labels are integers; `usort a` = the distinct labels of a, `na a u` = number of
+   entries of a equal to u, `nab a b u w` = number of positions i with a_i = u and b_i = w (the
+   contingency table), n = length a.
+     Hlab a    = - sum_u  na(u)/n * (ln na(u) - ln n)                      entropy H(C)
+     Hcond a b =   sum_{u,w : nab>0}  nab(u,w)/n * (ln nb(w) - ln nab(u,w))  conditional entropy H(C|K)
+   The code computes mi = max(0, I) with I = H(C) - H(C|K) = H(K) - H(K|C), then
+     h = mi / H(C)  (1 if H(C) = 0),  c = mi / H(K)  (1 if H(K) = 0),  v = 2hc/(h+c)  (0 if h+c = 0). *)
+Theorem C15_hcv_definition : forall a b, length a = length b -> a <> [] ->
+  hcv ROps a b = Some (hcv_of (clamp0 (Hlab a - Hcond a b)) (Hlab a) (Hlab b)) /\
+  Hlab a - Hcond a b = Hlab b - Hcond b a.
+Proof.
+  intros a b Hl Hne. split.
+  - rewrite (hcv_value_form a b Hl Hne), (mi_decomp a b Hl). reflexivity.
+  - rewrite <- (mi_decomp a b Hl), <- (mi_decomp b a (eq_sym Hl)). symmetry. exact (MIraw_swap a b Hl).
+Qed.
+
+(* exchanging the arguments exchanges homogeneity and completeness and keeps the V-measure *)
+Theorem C15_hcv_swap : forall a b h c v, length a = length b ->
+  hcv ROps a b = Some (h, c, v) -> hcv ROps b a = Some (c, h, v).
+Proof. exact hcv_swap_lemma. Qed.
+
+(* invariance under injective renaming of the labels of either vector *)
+Theorem C15_hcv_relabel_invariant : forall f g a b, length a = length b -> injective f -> injective g ->
+  hcv ROps (map f a) (map g b) = hcv ROps a b.
+Proof. exact hcv_relabel_lemma. Qed.
+
+(* value 1 when the respective conditional entropy is zero (after the repair of D10 also when the
+   entropy in the denominator is zero) *)
+Theorem C15_hcv_one_when_conditional_entropy_zero : forall a b, length a = length b -> a <> [] ->
+  (Hcond a b = 0 -> exists c v, hcv ROps a b = Some (1, c, v)) /\
+  (Hcond b a = 0 -> exists h v, hcv ROps a b = Some (h, 1, v)).
+Proof. intros a b Hl Hne. split; [exact (hom_one a b Hl Hne) | exact (com_one a b Hl Hne)]. Qed.
+
+(* the conditional entropy is zero when every cluster lies inside one class (b_i = b_j -> a_i = a_j),
+   in particular when the first labelling has a single class *)
+Theorem C15_hcv_conditional_entropy_zero_cases : forall a b, length a = length b ->
+  (determined_by a b -> Hcond a b = 0) /\
+  ((forall x y, In x a -> In y a -> x = y) -> Hcond a b = 0).
+Proof.
+  intros a b Hl. split; [exact (Hcond_zero_when_determined a b Hl)|].
+  intros H. exact (Hcond_zero_when_determined a b Hl (single_class_determined a b H)).
+Qed.
+
+(* single-class labellings: homogeneity 1 / completeness 1 *)
+Theorem C15_hcv_single_class : forall a b, length a = length b -> a <> [] ->
+  ((forall x y, In x a -> In y a -> x = y) -> exists c v, hcv ROps a b = Some (1, c, v)) /\
+  ((forall x y, In x b -> In y b -> x = y) -> exists h v, hcv ROps a b = Some (h, 1, v)).
+Proof.
+  intros a b Hl Hne. split; intros H.
+  - apply (hom_one a b Hl Hne). exact (Hcond_zero_when_determined a b Hl (single_class_determined a b H)).
+  - apply (com_one a b Hl Hne). exact (Hcond_zero_when_determined b a (eq_sym Hl) (single_class_determined b a H)).
+Qed.
+
+(* extension: all three scores lie in [0,1] (the lower bound is the code's max(0, .), the upper bound
+   is H(C|K) >= 0; Gibbs' inequality is not needed for the clamped value) *)
+Theorem C15_hcv_in_unit_interval : forall a b h c v, length a = length b -> a <> [] ->
+  hcv ROps a b = Some (h, c, v) -> 0 <= h <= 1 /\ 0 <= c <= 1 /\ 0 <= v <= 1.
+Proof. exact hcv_unit_interval. Qed.
+
+(* ------------------------------------------------------------------------------------------------
+   hypotheses are satisfiable *)
+Example C15_auc_hypotheses_instance :
+  let yt := [1; 0; 1; 0]%R in let scores := [1; 1; 2; 0]%R in let idx := [3; 1; 0; 2]%nat in
+  length scores = length yt /\ binary yt /\ Permutation idx (seq 0 (length yt)) /\
+  Sorted Rle (map (at_ scores) idx).
+Proof.
+  cbn zeta. split; [reflexivity|]. split.
+  - intros x Hx. cbn in Hx. intuition.
+  - split.
+    + apply NoDup_Permutation.
+      * repeat constructor; cbn; intuition lia.
+      * apply seq_NoDup.
+      * intros x. cbn. intuition.
+    + unfold at_. cbn [map nth]. repeat constructor; lra.
+Qed.
+
+Example C15_fbeta_hypotheses_instance :
+  length [1%R] = length [1%R] /\ binary [1%R] /\ (0 < n_tp [1%R] [1%R])%nat.
+Proof.
+  split; [reflexivity|]. split; [intros x [Hx|[]]; right; symmetry; exact Hx|].
+  unfold n_tp, count_idx, countb, at_. cbn [length seq filter nth].
+  replace (Reqb 1 1) with true by (symmetry; apply Reqb_true; reflexivity). cbn. auto.
+Qed.
+
+Example C15_hcv_hypotheses_instance :
+  let a := [0; 0; 1]%Z in let b := [5; 5; 7]%Z in
+  length a = length b /\ a <> [] /\ determined_by a b /\ Hcond a b = 0 /\ injective Z.opp /\
+  injective (fun z => (2 * z + 1)%Z).
+Proof.
+  cbn zeta.
+  assert (D : determined_by [0; 0; 1]%Z [5; 5; 7]%Z).
+  { intros p q Hp Hq. cbn in Hp, Hq.
+    destruct Hp as [Hp|[Hp|[Hp|[]]]]; destruct Hq as [Hq|[Hq|[Hq|[]]]]; subst; cbn; congruence. }
+  split; [reflexivity|]. split; [discriminate|]. split; [exact D|]. split.
+  - exact (Hcond_zero_when_determined [0; 0; 1]%Z [5; 5; 7]%Z eq_refl D).
+  - split; intros x y H; lia.
+Qed.
